@@ -17,7 +17,8 @@ Definition lclass_old (s : st) (d : diff) : smap N :=
   foldd (fun e m => put [fst e; s_next s] (getd (class_dep s d) [fst e]) m) (d_replace d) (s_lclass s).
 
 Lemma store_old_eq : forall s d, store_old s d =
-  mkSt (s_next s + 1) (upd_class d (s_class s)) (upd_nonce d (s_nonce s)) (upd_dh (s_next s) d (s_dh s))
+  mkSt (s_next s + 1) (upd_class (with_sys (s_class s) d) (s_class s)) (upd_nonce (with_sys (s_class s) d) (s_nonce s))
+       (upd_dh (s_next s) (with_sys (s_class s) d) (s_dh s))
        (upd_store (d_store d) (s_store s)) (upd_decl (s_next s) d (s_decl s))
        (lstore_old s d) (lnonce_old s d) (lclass_old s d).
 Proof.
@@ -25,29 +26,26 @@ Proof.
   exact (foldd_skip (noop s) (fun e m => put [fst (fst e); snd (fst e); s_next s] (getd (s_store s) (skey e)) m) _ _).
 Qed.
 
-Lemma Inv_store_old : forall s d, Inv s -> Valid s d -> Inv (store_old s d).
+Lemma Inv_store_old : forall s d, Inv s -> VS s d -> Inv (store_old s d).
 Proof.
-  intros. rewrite store_old_eq. pose proof H as I. destruct I. apply Inv_store_gen; auto.
+  intros s d H V. rewrite store_old_eq. pose proof H as I. destruct I.
+  apply (Inv_store_gen s (with_sys (s_class s) d)); auto.
+  - apply (vs_valid _ _ V).
   - apply sorted_fold_put; auto.
   - apply sorted_fold_put; auto.
   - apply sorted_fold_put; auto.
   - apply (below_fold_put (fun e => [fst (fst e); snd (fst e)])); [lia|]. eapply below_mono; [|eauto]. lia.
   - apply (below_fold_put (fun e => [fst e])); [lia|]. eapply below_mono; [|eauto]. lia.
   - apply (below_fold_put (fun e => [fst e])); [lia|]. eapply below_mono; [|eauto]. lia.
-  - intros a Ha. apply upd_class_none in Ha. destruct Ha as [F1 [F2 Hc]].
-    destruct (i_nolog a Hc) as [N1 [N2 N3]]. destruct H0.
-    assert (ND : inkeys (d_deploy d) a = false) by (apply find_inkeys_none; auto).
+  - intros a Ha. destruct (nolog_after s d a H V Ha) as [F1 [F2 [F3 [F4 [N1 [N2 N3]]]]]].
     repeat split; intros.
-    + unfold lnonce_old. rewrite get_lput1. destruct (b =? s_next s); auto.
-      destruct (find (fun e => keqb [a] [fst e]) (d_nonce d)) eqn:F; auto.
-      apply find_key_some in F. destruct F as [K Hin]. inversion K; subst.
-      destruct (v_nonce _ Hin); [contradiction | congruence].
+    + unfold lnonce_old. rewrite get_lput1. destruct (b =? s_next s); auto. rewrite F3. auto.
     + unfold lclass_old. rewrite !get_lput1. destruct (b =? s_next s); auto. rewrite F1. auto.
     + unfold lstore_old. rewrite get_lput2. destruct (b =? s_next s); auto.
       destruct (find _ (filter _ (d_store d))) eqn:F; auto.
-      apply find_some in F. destruct F as [Hin K]. apply keqb2_fst in K. subst.
-      apply filter_In in Hin. destruct Hin as [Hin _].
-      destruct (v_store _ Hin); [contradiction | congruence].
+      apply find_some in F. destruct F as [Hin K]. apply filter_In in Hin. destruct Hin as [Hin _].
+      eapply find_none in Hin; [|apply (F4 sl)]. simpl in Hin. congruence.
+  - intros. apply (sys_after s d); auto.
 Qed.
 
 (* ---------- the value just before block n, read from the legacy log written for block n ---------- *)
@@ -74,8 +72,10 @@ Qed.
 Section RevertOld.
   Variables (s : st) (d : diff).
   Hypothesis I : Inv s.
-  Hypothesis Vd : Valid s d.
+  Hypothesis V : VS s d.
   Let n := s_next s.
+  Let dx := with_sys (s_class s) d.
+  Let Vd : Valid s dx := vs_valid _ _ V.
 
   Lemma ro_empty : n = 0 -> s = st_empty.
   Proof. apply (i_empty _ I). Qed.
@@ -86,7 +86,7 @@ Section RevertOld.
 
   Lemma ro_below : below (lstore_old s d) (n + 1) /\ below (lnonce_old s d) (n + 1) /\ below (lclass_old s d) (n + 1).
   Proof.
-    pose proof (Inv_store_old s d I Vd) as I'. rewrite store_old_eq in I'.
+    pose proof (Inv_store_old s d I V) as I'. rewrite store_old_eq in I'.
     split; [|split]; [apply (i_b1 _ I') | apply (i_b2 _ I') | apply (i_b3 _ I')].
   Qed.
 
@@ -185,6 +185,50 @@ Section RevertOld.
       apply (below_none _ _ [fst p] _ (i_b3 _ I)). unfold n. lia.
   Qed.
 
+  (* purgesystemContracts removes exactly the system contracts the block had created *)
+  Lemma ro_gone : forall rc : list (N * N), (forall e, In e rc -> In (fst e) (map fst (d_replace d))) ->
+    filter (fun a => present (foldd (fun e m => del [fst e] m) (d_deploy d)
+                               (foldd (fun e m => put [fst e] (snd e) m) rc (upd_class dx (s_class s)))) a
+                     && negb (has_store (s_store s) a)) sys_addrs
+    = sys_missing (s_class s) d.
+  Proof.
+    intros rc Hrc. unfold sys_missing. apply filter_ext_in. intros a Ha. apply is_sys_in in Ha.
+    rewrite (sys_present_store s a I Ha).
+    assert (S1 : sorted (upd_class dx (s_class s))) by (unfold upd_class; repeat apply sorted_fold_put; apply (i_s1 _ I)).
+    unfold present at 1. rewrite get_fold_del by (apply sorted_fold_put; auto).
+    destruct (find (fun e => keqb [a] [fst e]) (d_deploy d)) eqn:F2.
+    { apply find_key_some in F2. destruct F2 as [K Hin]. inversion K; subst. rewrite (vs_dep _ _ V _ Hin) in Ha. discriminate. }
+    rewrite get_fold_put.
+    destruct (find (fun e => keqb [a] [fst e]) rc) eqn:F1.
+    { apply find_key_some in F1. destruct F1 as [K Hin]. inversion K; subst. apply Hrc in Hin.
+      apply in_map_iff in Hin. destruct Hin as [e [E Hin]]. rewrite <- E in Ha. rewrite (vs_rep _ _ V _ Hin) in Ha. discriminate. }
+    rewrite get_upd_class. unfold dx. cbn [with_sys d_deploy d_replace].
+    destruct (find (fun e => keqb [a] [fst e]) (d_replace d)) eqn:F3.
+    { apply find_key_some in F3. destruct F3 as [K Hin]. inversion K; subst. rewrite (vs_rep _ _ V _ Hin) in Ha. discriminate. }
+    rewrite find_app, F2.
+    destruct (find (fun e => keqb [a] [fst e]) (sys_new (s_class s) d)) eqn:F4.
+    - apply find_key_some in F4. destruct F4 as [K Hin]. inversion K; subst.
+      apply in_sys_new in Hin. destruct Hin as [_ Hin]. apply in_sys_missing in Hin. destruct Hin as [_ [Ht Hc]].
+      rewrite Ht. apply present_false in Hc. rewrite Hc. auto.
+    - unfold present. destruct (get (s_class s) [a]) eqn:Hc; simpl; [rewrite andb_false_r; auto|].
+      destruct (touched d a) eqn:Ht; auto. exfalso.
+      assert (Hin : In a (sys_missing (s_class s) d)) by (apply in_sys_missing; auto).
+      apply inkeys_sys_new in Hin. apply inkeys_find in Hin. destruct Hin. congruence.
+  Qed.
+
+  Lemma ro_dh_ok : existsb (fun a => negb (getd (foldd (fun e m => del [fst e] m) (d_deploy d) (upd_dh n dx (s_dh s))) [a] =? n))
+                     (sys_missing (s_class s) d) = false.
+  Proof.
+    apply not_true_iff_false. intro H. apply existsb_exists in H. destruct H as [a [Hin H]].
+    assert (S1 : sorted (upd_dh n dx (s_dh s))) by (unfold upd_dh; apply sorted_fold_put; apply (i_s3 _ I)).
+    unfold getd in H. rewrite get_fold_del in H by auto. pose proof Hin as Hm. apply in_sys_missing in Hm. destruct Hm as [Ha _].
+    destruct (find (fun e => keqb [a] [fst e]) (d_deploy d)) eqn:F2.
+    { apply find_key_some in F2. destruct F2 as [K Hd]. inversion K; subst. rewrite (vs_dep _ _ V _ Hd) in Ha. discriminate. }
+    rewrite get_upd_dh in H. unfold dx in H. cbn [with_sys d_deploy] in H. rewrite find_app in H.
+    apply inkeys_sys_new in Hin. apply inkeys_find in Hin. destruct Hin as [e Fe]. rewrite Fe in H.
+    rewrite N.eqb_refl in H. discriminate.
+  Qed.
+
   Lemma revert_store_old : revert_old (store_old s d) d = Some s.
   Proof.
     unfold revert_old.
@@ -201,13 +245,21 @@ Section RevertOld.
     2:{ intros. rewrite ro_rev_nonce; auto. }
     rewrite (map_opt_all _ (fun e => (fst e, getd (class_dep s d) [fst e]))).
     2:{ intros. rewrite ro_rev_class; auto. }
-    unfold n.
-    rewrite (rg_class s d I Vd (fun a => getd (class_dep s d) [a])).
-    2:{ intros. unfold getd, class_dep. rewrite get_fold_put. rewrite H. rewrite H0. auto. }
-    rewrite (rg_nonce s d I Vd (fun a => getd (nonce_dep s d) [a])).
-    2:{ intros. unfold getd, nonce_dep. rewrite get_fold_put. rewrite H. rewrite H0. auto. }
-    rewrite (rn_dh s d I Vd).
+    rewrite (sys_new_after s d I V). cbn [foldd fold_right].
     rewrite (rg_store_undo s d I (fun a sl => getd (s_store s) [a; sl])); auto.
+    fold dx. rewrite ro_gone.
+    2:{ intros e Hin. apply in_map_iff in Hin. destruct Hin as [x [Ex Hin]]. subst. simpl. apply in_map. auto. }
+    rewrite ro_dh_ok. rewrite !foldd_sys_del.
+    change (map (fun a => (a, 0)) (sys_missing (s_class s) d) ++ d_deploy d) with (d_deploy dx).
+    change (d_replace d) with (d_replace dx) at 1. change (d_nonce d) with (d_nonce dx) at 1.
+    unfold n.
+    rewrite (rg_class s dx I Vd (fun a => getd (class_dep s d) [a])).
+    2:{ intros a c H H0. apply find_app_none in H. destruct H as [_ H].
+        unfold getd, class_dep. rewrite get_fold_put. rewrite H. rewrite H0. auto. }
+    rewrite (rg_nonce s dx I Vd (fun a => getd (nonce_dep s d) [a])).
+    2:{ intros a c H H0. apply find_app_none in H. destruct H as [_ H].
+        unfold getd, nonce_dep. rewrite get_fold_put. rewrite H. rewrite H0. auto. }
+    rewrite (rn_dh s dx I Vd).
     fold n. rewrite ro_lstore, ro_lnonce, ro_lclass.
     destruct s; auto.
   Qed.
@@ -265,27 +317,26 @@ Proof.
   destruct (i_dom1 _ H _ E) as [_ Hd]. rewrite Hd in H0. discriminate.
 Qed.
 
-Lemma read_old_stable : forall s d q m, Inv s -> Valid s d -> m < s_next s ->
+Lemma read_old_stable : forall s d q m, Inv s -> VS s d -> m < s_next s ->
   read_old (store_old s d) q m = read_old s q m.
 Proof.
-  intros s d q m I Vd Hm.
-  pose proof (Inv_store_old s d I Vd) as I'. rewrite store_old_eq in *.
-  assert (DA : forall x, deployed_at (mkSt (s_next s + 1) (upd_class d (s_class s)) (upd_nonce d (s_nonce s))
-              (upd_dh (s_next s) d (s_dh s)) (upd_store (d_store d) (s_store s))
-              (upd_decl (s_next s) d (s_decl s)) (lstore_old s d) (lnonce_old s d) (lclass_old s d)) x m
-            = deployed_at s x m).
-  { intros. unfold deployed_at at 1. simpl. apply (deployed_at_stable s d m); auto. }
+  intros s d q m I V Hm. pose proof (vs_valid _ _ V) as Vd.
+  pose proof (Inv_store_old s d I V) as I'. rewrite store_old_eq in *.
+  match goal with |- read_old ?S' _ _ = _ =>
+    assert (DA : forall x, deployed_at S' x m = deployed_at s x m) end.
+  { intros. unfold deployed_at at 1. simpl. apply (deployed_at_stable s (with_sys (s_class s) d) m); auto. }
   destruct q; simpl read_old; cbn [s_class s_nonce s_store s_decl s_lstore s_lnonce s_lclass].
   - rewrite DA. destruct (deployed_at s a m) eqn:Ed; auto.
     destruct (deployed_class s a m I Ed) as [c Hc].
-    assert (F2 : find (fun e => keqb [a] [fst e]) (d_deploy d) = None).
-    { destruct (find _ (d_deploy d)) eqn:F; auto. apply find_key_some in F. destruct F as [K Hin]. inversion K; subst.
+    assert (F2x : find (fun e => keqb [a] [fst e]) (sys_new (s_class s) d ++ d_deploy d) = None).
+    { destruct (find _ (sys_new (s_class s) d ++ d_deploy d)) eqn:F; auto. apply find_key_some in F. destruct F as [K Hin]. inversion K; subst.
       rewrite (v_deploy _ _ Vd _ Hin) in Hc. discriminate. }
+    assert (F2 : find (fun e => keqb [a] [fst e]) (d_deploy d) = None) by (apply find_app_none in F2x; tauto).
     rewrite (old_step (s_lclass s) (lclass_old s d) [a] m (s_next s)); auto;
       [| apply (i_s8 _ I) | apply (i_s8 _ I') | apply (i_b3 _ I) | apply (i_b3 _ I') |
          intros; unfold lclass_old; simpl; rewrite get_lput1; destruct (b =? s_next s) eqn:E; auto; lia].
     destruct (valueAt_old (sub (s_lclass s) [a]) m); auto.
-    unfold lclass_old. simpl. rewrite get_lput1, N.eqb_refl. rewrite get_upd_class. rewrite F2.
+    unfold lclass_old. simpl. rewrite get_lput1, N.eqb_refl. rewrite get_upd_class. cbn [with_sys d_deploy d_replace]. rewrite F2x.
     destruct (find (fun e => keqb [a] [fst e]) (d_replace d)) eqn:F1.
     + apply find_key_some in F1. destruct F1 as [K _]. inversion K. rewrite <- H0.
       unfold getd, class_dep. rewrite get_fold_put, F2, Hc. auto.
@@ -294,14 +345,15 @@ Proof.
     destruct (deployed_class s a m I Ed) as [c Hc].
     assert (Hc' : get (s_class s) [a] <> None) by congruence.
     destruct (i_dom2 _ I _ Hc') as [Hn _]. destruct (get (s_nonce s) [a]) eqn:En; [|contradiction].
-    assert (F2 : find (fun e => keqb [a] [fst e]) (d_deploy d) = None).
-    { destruct (find _ (d_deploy d)) eqn:F; auto. apply find_key_some in F. destruct F as [K Hin]. inversion K; subst.
+    assert (F2x : find (fun e => keqb [a] [fst e]) (sys_new (s_class s) d ++ d_deploy d) = None).
+    { destruct (find _ (sys_new (s_class s) d ++ d_deploy d)) eqn:F; auto. apply find_key_some in F. destruct F as [K Hin]. inversion K; subst.
       rewrite (v_deploy _ _ Vd _ Hin) in Hc. discriminate. }
+    assert (F2 : find (fun e => keqb [a] [fst e]) (d_deploy d) = None) by (apply find_app_none in F2x; tauto).
     rewrite (old_step (s_lnonce s) (lnonce_old s d) [a] m (s_next s)); auto;
       [| apply (i_s7 _ I) | apply (i_s7 _ I') | apply (i_b2 _ I) | apply (i_b2 _ I') |
          intros; unfold lnonce_old; simpl; rewrite get_lput1; destruct (b =? s_next s) eqn:E; auto; lia].
     destruct (valueAt_old (sub (s_lnonce s) [a]) m); auto.
-    unfold lnonce_old. simpl. rewrite get_lput1, N.eqb_refl. rewrite get_upd_nonce. rewrite F2.
+    unfold lnonce_old. simpl. rewrite get_lput1, N.eqb_refl. rewrite get_upd_nonce. cbn [with_sys d_deploy d_nonce]. rewrite F2x.
     destruct (find (fun e => keqb [a] [fst e]) (d_nonce d)) eqn:F1.
     + apply find_key_some in F1. destruct F1 as [K _]. inversion K. rewrite <- H0.
       unfold getd, nonce_dep. rewrite get_fold_put, F2, En. auto.
